@@ -239,6 +239,57 @@ func TestVerifC03(t *testing.T) {
 		os.RemoveAll(dir)
 	}
 
+	// ---- (d) high-cardinality columns: more than 256 distinct string values per block (plain encoding instead of
+	//      a dictionary), 3-6 parts of the same series merged in one go, a few series, several rounds
+	for c := 0; c < verifh.Pick(6, 60); c++ {
+		r := verifh.Rand("c03hc", c)
+		dir := freshDir(base)
+		st := openStepTable(dir, fileSystem)
+		var all []vrow
+		bad := ""
+		nSeries := 1 + r.Intn(3)
+		sids := []common.SeriesID{1, 2, 3}[:nSeries]
+		ts := int64(0)
+		for round := 0; round < 1+r.Intn(3) && bad == ""; round++ {
+			fanIn := 3 + r.Intn(4)
+			for p := 0; p < fanIn; p++ {
+				var rows []vrow
+				for _, sid := range sids {
+					for i := 0; i < 260+r.Intn(200); i++ {
+						uid++
+						ts++
+						rows = append(rows, vrow{sid: sid, ts: ts, version: 1, uid: uid, s: fmt.Sprintf("value-%d-%d", uid, r.Intn(1000)), iv: uid, fv: float64(uid) / 8})
+					}
+				}
+				st.write(rows)
+				st.flush()
+				all = append(all, rows...)
+			}
+			ids, file := st.partIDs()
+			var fids []uint64
+			for _, id := range ids {
+				if file[id] {
+					fids = append(fids, id)
+				}
+			}
+			if r.Intn(2) == 0 && len(fids) > 3 { // leave one part out now and then
+				fids = fids[1:]
+			}
+			if _, err := st.merge(fids); err != nil {
+				bad = "merge failed: " + err.Error()
+				break
+			}
+			bad = checkAll(st, all, sids, r, int(ts))
+		}
+		s.Case(fmt.Sprintf("highcard/%d/%d", c, len(all)), true)
+		s.Count("c03.measure.high_cardinality_cases", 1)
+		if bad != "" {
+			s.Violation("c03:measure:high-cardinality-merge", map[string]any{"case": c, "rows": len(all), "series": nSeries, "discrepancy": bad})
+		}
+		st.close()
+		os.RemoveAll(dir)
+	}
+
 	liveMeasure(s, base, fileSystem, &uid)
 	os.RemoveAll(base)
 	s.Done()
